@@ -475,6 +475,10 @@ func (p *c15) Run(i int) (res fw.Result) {
 }
 
 func (p *c15) Rule() string {
+	return p.ruleBase() + " " + "Round 12: the digit strings around 2^31..2^64 and 10^19..10^20 carried by decimals (from the string, negated, plus one, times three, from a big integer at exponents 0, 2 and -3), by value, by pointer and wrapped as safe: CoerceNumber is the number the decimal's string spells."
+}
+
+func (p *c15) ruleBase() string {
 	return "cases: every value of the Go-value zoo (nil, bools, every numeric kind at boundaries, float specials, strings incl. numeric spellings and invalid UTF-8, decimals, Stringer/Number/Boolean implementers by value and by pointer, typed nil pointers, slices, maps, arrays, structs, funcs, chans, complex, nested safe wrappers) for totality, fallback ('',0,false for unsupported kinds) and wrapper transparency at 1..3 levels; 57 boundary integers (incl. 2^53+1, MaxInt64, MinInt64) (incl. integers beyond 2^24 that a float32 still holds exactly) and the whole int16 range carried by every Go numeric kind that holds them exactly, including defined types (type T int / uint8 / float32 / float64) (same string/number/truth value, plain decimal string); seeded random float64 bit patterns, dyadic/decimal fractions and integral floats for float64->string->number identity (bit-exact; half of them right after the nearest float32 was printed, and printed twice) and plain-integer printing below 10^6; decimal numeric strings in 5-7 spellings (shortest, %e with 17 digits, %E, fixed, fixed with 20 decimals, leading '+', leading zeros, no digit before or after the decimal point, exponent zero) for string->number. Non-trivial: all enumerated values are distinct by construction; random floats/strings deduplicated by spelling."
 }
 
